@@ -126,6 +126,10 @@ pub enum FOp {
     /// claiming, full exit (close, or emergency withdrawal), next epoch a fresh position - every
     /// step through the ordinary operations and their monitors
     Churn { user: u8, lp: u8, rounds: u8, amount: u128, emergency: bool },
+    /// two positions of one user in one LP token; after an epoch one of them leaves by an emergency
+    /// withdrawal (open) or by close + emergency withdrawal, the other stays; two epochs later
+    /// everybody claims - the leaver must be paid for what is still staked only
+    ExitOneOfTwo { user: u8, lp: u8, amount: u128, other: u128, close_first: bool },
 }
 
 #[derive(Debug, Clone, Serialize, Deserialize, PartialEq)]
@@ -264,6 +268,12 @@ pub fn op_strat(w: FWeights) -> impl Strategy<Value = FOp> {
         (
             if w.open > 0 && w.expand_pos > 0 { CHURN_WEIGHT } else { 0 },
             (user(), 0u8..3, 9u8..16, lp_amount(), proptest::bool::weighted(0.3)).prop_map(|(user, lp, rounds, amount, emergency)| FOp::Churn { user, lp, rounds, amount, emergency }).boxed(),
+        ),
+        (
+            if w.open > 0 && w.withdraw > 0 && w.claim > 0 { CHURN_WEIGHT } else { 0 },
+            (user(), 0u8..3, lp_amount(), lp_amount(), proptest::bool::weighted(0.3))
+                .prop_map(|(user, lp, amount, other, close_first)| FOp::ExitOneOfTwo { user, lp, amount, other, close_first })
+                .boxed(),
         ),
     ];
     proptest::strategy::Union::new_weighted(all.into_iter().filter(|(w, _)| *w > 0).collect())
